@@ -178,6 +178,31 @@ def _offset_task(task, p):
         p.sample("large_offset", {"alphabet": ["ND", 30000, 30001, 30005], "n": n})
 
 
+def plateaus(ctx, nd):
+    """Nearly flat records on a high level: constant except for a few cells one count higher.  The variance is
+    tiny relative to the mean square (down to 1e-12) but not zero, so the correlation is defined."""
+    sub = "plateaus"
+    rows, vs = [], []
+    for level in (10000, 30000, 32000):
+        for n in (30, 100, 900):
+            t = np.arange(n)
+            for bumps in ([n // 2], [n // 3, n // 3 + 1], [3, n // 2, n - 4], list(range(n // 4, n // 4 + 5))):
+                x = np.full(n, level, dtype=np.int64)
+                x[bumps] += 1
+                for gap in (None, (5, 12), (n - 9, n - 2)):
+                    v = np.ones(n, bool)
+                    if gap:
+                        v[gap[0]:gap[1]] = False
+                    rows.append((n, np.where(v, x, nd), v))
+    for n in sorted({r[0] for r in rows}):
+        sel = [r for r in rows if r[0] == n]
+        vals = np.array([r[1] for r in sel])
+        valid = np.array([r[2] for r in sel])
+        check_words(vals, valid, nd, ctx, sub, full=True)
+        ctx.count(sub, evaluations=len(sel), nontrivial=len(sel), states=len(sel), traces_validated_against_impl=len(sel))
+    ctx.sample(sub, {"levels": [10000, 30000, 32000], "lengths": [30, 100, 900], "bumps": "1, 2, 3 or 5 cells one count higher"})
+
+
 def long_records(ctx, nd):
     """Deterministic 900-step records with contiguous outages covering 10..90 %."""
     sub = "long_records"
@@ -271,6 +296,7 @@ def run(ctx):
     ctx.note("nodata", nd)
     ctx.note("max_len", maxn)
     long_records(ctx, -9999)
+    plateaus(ctx, -9999)
     accessor(ctx, letters, nd)
 
 
